@@ -1,14 +1,30 @@
-"""C21 (cluster part) - commands reach replicas only when the caller opts in; out-of-range selector answers fall back to the primary."""
+"""C21 - commands reach replicas only when the caller opts in; out-of-range selector answers fall back to the primary.
+Cluster part: this file (cluster family).  Non-cluster part (standalone-with-replicas and sentinel clients, sentinel family):
+checks/c21_nocluster.py, run beside the cluster part."""
+import threading, traceback
 from checks import clustercommon as cc
+from checks import c21_nocluster
 LEVEL = 'model_checking'
+
+
+def _nocluster(ctx):
+    try:
+        c21_nocluster.run(ctx)
+    except Exception:
+        ctx.inconclusive.append('non-cluster part of C21 crashed:\n' + traceback.format_exc())
 
 
 def run(ctx):
     th = ctx.tier == 'thorough'
-    cc.model(ctx, ['MC_cluster_repl2.cfg'] if th else [], {'MC_cluster_neg_pred.cfg': 'ReplicaOnlyWhenOptedIn', 'MC_cluster_neg_sel.cfg': 'OutOfRangeFallsBackToPrimary'})
-    if th:
-        cc.sim(ctx, ['Gen_cluster_repl.cfg'], 0, 250, modes='sendto,sendto,replicaonly,none', tracefiles=8)
-    else:
-        cc.sim(ctx, ['Gen_cluster_repl.cfg'], 110, 30, modes='sendto,sendto,replicaonly,none', tracefiles=4)
-    ctx.assumptions += ['only the cluster client is covered here; the standalone and sentinel parts of C21 are checked by their own family']
+    t = threading.Thread(target=_nocluster, args=(ctx,))
+    t.start()
+    try:
+        cc.model(ctx, ['MC_cluster_repl2.cfg'] if th else [], {'MC_cluster_neg_pred.cfg': 'ReplicaOnlyWhenOptedIn', 'MC_cluster_neg_sel.cfg': 'OutOfRangeFallsBackToPrimary'})
+        if th:
+            cc.sim(ctx, ['Gen_cluster_repl.cfg'], 0, 250, modes='sendto,sendto,replicaonly,none', tracefiles=8)
+        else:
+            cc.sim(ctx, ['Gen_cluster_repl.cfg'], 110, 30, modes='sendto,sendto,replicaonly,none', tracefiles=4)
+    finally:
+        t.join()
+    ctx.assumptions = [a for a in ctx.assumptions if 'cluster part of C21 is checked by' not in a]
     ctx.exhaustive = th      # the quick tier replays a seeded sample of the TLC-generated scenarios, the thorough tier all of them
